@@ -589,10 +589,10 @@ impl Engine for NetEngine {
     }
     fn budget(&self) -> (u64, u64) {
         match self.prop {
-            NetProp::C01 => (30_000, 360),
-            NetProp::C02 => (20_000, 360),
-            NetProp::C03 => (30_000, 360),
-            NetProp::C04 => (30_000, 360),
+            NetProp::C01 => (120_000, 360),
+            NetProp::C02 => (80_000, 360),
+            NetProp::C03 => (80_000, 360),
+            NetProp::C04 => (120_000, 360),
         }
     }
     fn info(&self) -> EngineInfo {
